@@ -3,13 +3,13 @@ import hashlib
 import json
 import os
 
-from . import kernels, kernels_group, tables, guards, unchecked_sites, nondet_sources, cursor_sites, size_checks
+from . import kernels, kernels_group, tables, guards, unchecked_sites, nondet_sources, cursor_sites, size_checks, gen_templates
 
 
 def run(repo, outdir):
     report = {'failed': {}, 'parts': {}}
     for name, mod in (('kernels', kernels), ('kernels_group', kernels_group), ('tables', tables), ('guards', guards), ('unchecked_sites', unchecked_sites),
-                      ('nondet_sources', nondet_sources), ('cursor_sites', cursor_sites), ('size_checks', size_checks)):
+                      ('nondet_sources', nondet_sources), ('cursor_sites', cursor_sites), ('size_checks', size_checks), ('gen_templates', gen_templates)):
         r = mod.extract(repo, outdir)
         report['parts'][name] = r
         for k, v in r.get('failed', {}).items():
